@@ -12,11 +12,11 @@ const (
 
 // Profile weights the operation kinds of the history generator.
 type Profile struct {
-	Name                                                                 string
-	Publish, Pull, Ack, Nack, Delay, Advance, Seek, Snap, Maint, Sweep   int
-	Churn                                                                int // create/delete subscriptions and topics
-	NoSeek, NoDL, OrderedOnly                                            bool
-	BigAdvance                                                           bool
+	Name                                                               string
+	Publish, Pull, Ack, Nack, Delay, Advance, Seek, Snap, Maint, Sweep int
+	Churn                                                              int // create/delete subscriptions and topics
+	NoSeek, NoDL, OrderedOnly                                          bool
+	BigAdvance                                                         bool
 }
 
 var ProfileAll = Profile{Name: "all", Publish: 5, Pull: 6, Ack: 3, Nack: 2, Delay: 2, Advance: 4, Seek: 1, Snap: 1, Maint: 2, Sweep: 1, Churn: 1}
@@ -190,6 +190,8 @@ func (g *Gen) Next(now int64) Op {
 			if g.R.Intn(8) == 0 {
 				op.MaxBytes = 20 + g.R.Intn(200)
 				op.Strict = g.R.Intn(2) == 0
+			} else if g.R.Intn(3) == 0 {
+				op.Via = "handler"
 			}
 			return op, true
 		}},
@@ -200,6 +202,9 @@ func (g *Gen) Next(now int64) Op {
 			op := Op{K: "ack", Refs: g.refs(1 + g.R.Intn(2))}
 			if g.R.Intn(4) == 0 {
 				op.Garbage = 1
+			}
+			if g.R.Intn(3) == 0 {
+				op.Via = "handler"
 			}
 			return op, true
 		}},
@@ -218,7 +223,11 @@ func (g *Gen) Next(now int64) Op {
 				return Op{}, false
 			}
 			d := []int64{0, 0, -5 * Sec, 20 * Sec, 40 * Sec, 5 * Sec, 600 * Sec}[g.R.Intn(7)]
-			return Op{K: "delay", Refs: g.refs(1 + g.R.Intn(3)), D: d}, true
+			op := Op{K: "delay", Refs: g.refs(1 + g.R.Intn(3)), D: d}
+			if g.R.Intn(3) == 0 {
+				op.Via = "handler"
+			}
+			return op, true
 		}},
 		{p.Advance, func() (Op, bool) {
 			d := int64(1+g.R.Intn(40)) * Sec
